@@ -368,6 +368,10 @@ func run(c *ev.Ctx) {
 }
 
 var scalarForms = []string{"0", "-1.5", "1e2", `"a"`, `"é"`, `"\n\"\\"`, `""`, "true", "false", "null"}
+
+// spelledForms: strings whose content spells another scalar of the alphabet
+// (arrays mixing both are where a scanner that compares by text goes wrong).
+var spelledForms = []string{`"0"`, `"true"`, `"null"`, `"-1.5"`}
 var gapForms = []string{" ", "\t", "\n", "\r\n"}
 
 // tokens of a value: list of token strings (structure + scalars)
@@ -516,6 +520,13 @@ func families(c *ev.Ctx) {
 		evalAndReport(c, "{"+str+":1}")
 		evalAndReport(c, `{"k": `+str+` }`)
 		c.Inc("escape_family_texts")
+	}
+	// arrays pairing every scalar with every string that spells a scalar, in both orders
+	for _, a := range scalarForms {
+		for _, b := range spelledForms {
+			evalAndReport(c, "["+a+","+b+"]")
+			evalAndReport(c, "[ "+b+" , "+a+" ]")
+		}
 	}
 	for _, num := range []string{"0", "-0", "10", "1.5", "-1.5e-3", "1E+2", "0.0", "123456789012345678901234567890"} {
 		evalAndReport(c, num)
